@@ -2,8 +2,9 @@
    Only statements.  Model: coq/card/{Ops,Render,Spec,ModelPlot}.v; proofs: BuildersFacts.v, ModelPlotFacts.v.
    PrettyTable's layout (`pretty`), get_params (the `params` argument) and sklearn's estimator_html_repr (the `html`
    argument of OAddModelPlot) are oracles: only what is handed to / received from them is reasoned about. *)
-From Skv Require Import PyStr Json CardStr Path Tree ModelPlot Ops Render Spec
-                        TreeFacts OpsFacts RenderFacts ModelPlotFacts BuildersFacts.
+From Skv Require Import PyStr Json CardStr Path Tree ModelPlot Ops Render Spec Init
+                        TreeFacts OpsFacts RenderFacts ModelPlotFacts BuildersFacts InitFacts.
+From Gen Require CardSnapshot.      (* regenerated from the skops.card code on every run: harness/card_snapshot.py *)
 Open Scope N_scope.
 
 (* what TableSection.format hands to PrettyTable: the given column names in order; per column one cell
@@ -282,3 +283,214 @@ Theorem C14_metrics_example :
   metrics c = [(of_ascii "acc", of_ascii "0.75"); (of_ascii "f1", of_ascii "x"); (of_ascii "auc", of_ascii "1")].
 Proof. exact metrics_example. Qed.
 Print Assumptions C14_metrics_example.
+
+(* ======== Card(model, template=..., model_diagram=...): what the constructor puts where (coq/card/Init.v) ================
+   cfg : config is the module-level data the constructor reads (SKOPS_TEMPLATE in dict order, VALID_TEMPLATES,
+   Templates.skops.value, the default sections of add_hyperparams / add_model_plot, Card.add's parameter names).
+   The general theorems hold for EVERY cfg; the statements about the default card are over this run's CardSnapshot.cfg. *)
+
+(* the plan: which builder calls the constructor makes, or which exception it raises before making any *)
+Theorem C14_init_plan : forall cfg t dg params html,
+  init_plan cfg t dg params html =
+  match t with
+  | TStr name =>
+      if negb (mem name (valid_templates cfg)) then Raise EValue
+      else if pstr_eqb name (skops_name cfg)
+      then Ok (OAdd false (skops_template cfg) :: OAddHyperparams (hyper_section cfg) None params :: diagram_ops cfg true dg html)
+      else Ok (diagram_ops cfg false dg html)
+  | TMap kvs => if key_clash cfg kvs then Raise EType else Ok (OAdd false kvs :: diagram_ops cfg false dg html)
+  | TNone => Ok (diagram_ops cfg false dg html)
+  end.
+Proof. exact init_plan_table. Qed.
+Print Assumptions C14_init_plan.
+
+(* model_diagram: False nothing; True the default section (ALSO without the skops template: nothing raises, missing ancestors
+   are created); "auto" the default section under the skops template and nothing otherwise; any other str is the section *)
+Theorem C14_init_diagram : forall cfg skops dg html,
+  diagram_ops cfg skops dg html =
+  match dg with
+  | DBool false => []
+  | DBool true => [OAddModelPlot (plot_section cfg) None html]
+  | DStr sect => if pstr_eqb sect auto
+                 then (if skops then [OAddModelPlot (plot_section cfg) None html] else [])
+                 else [OAddModelPlot sect None html]
+  end.
+Proof. exact diagram_table. Qed.
+Print Assumptions C14_init_diagram.
+
+(* (a) the constructed card is the run of the planned calls on the empty card; none of them can fail *)
+Theorem C14_init_is_run : forall cfg t dg params html,
+  init_card cfg t dg params html =
+  (run_card (init_ops cfg t dg params html) empty_card,
+   match init_plan cfg t dg params html with Ok _ => Done | Raise e => Failed e end).
+Proof. exact init_card_run. Qed.
+Print Assumptions C14_init_is_run.
+
+(* (c) the error table: exactly an unknown template name (ValueError) and a dict key that is a parameter name of Card.add
+   (TypeError: `self.add(folded=False, **template)`); an exception leaves no card *)
+Theorem C14_init_errors : forall cfg t dg params html e,
+  snd (init_card cfg t dg params html) = Failed e <->
+  (exists name, t = TStr name /\ mem name (valid_templates cfg) = false /\ e = EValue)
+  \/ (exists kvs, t = TMap kvs /\ key_clash cfg kvs = true /\ e = EType).
+Proof. exact init_errors. Qed.
+Print Assumptions C14_init_errors.
+
+Theorem C14_init_key_clash : forall cfg kvs,
+  key_clash cfg kvs = true <-> exists kv, In kv kvs /\ In (fst kv) (add_params cfg).
+Proof. exact key_clash_iff. Qed.
+Print Assumptions C14_init_key_clash.
+
+Theorem C14_init_outcome : forall cfg t dg params html,
+  snd (init_card cfg t dg params html) = Done
+  \/ exists e, snd (init_card cfg t dg params html) = Failed e /\ fst (init_card cfg t dg params html) = empty_card.
+Proof. exact init_outcome. Qed.
+Print Assumptions C14_init_outcome.
+
+(* the diagram of a new card: wherever the constructor asks for it, a plain section headed by the last path part *)
+Theorem C14_init_diagram_placed : forall cfg t dg params html sect,
+  snd (init_card cfg t dg params html) = Done ->
+  diagram_ops cfg (is_skops cfg t) dg html = [OAddModelPlot sect None html] ->
+  exists x, lookup (split_names sect) (data (fst (init_card cfg t dg params html))) = Some x
+            /\ shallow_of x = (leaf_title sect, model_plot_content None html, true, false, KText).
+Proof. exact init_diagram_placed. Qed.
+Print Assumptions C14_init_diagram_placed.
+
+(* every section a template lists (SKOPS_TEMPLATE for "skops", the dict's own items) exists in the new card, and after any
+   further builder calls, at split(key), headed by the key's last part *)
+Theorem C14_template_sections_present : forall cfg t dg params html ops kv,
+  snd (init_card cfg t dg params html) = Done -> forallb is_builder ops = true ->
+  In kv (template_items cfg t) ->
+  exists x, lookup (split_names (fst kv)) (data (run_card ops (fst (init_card cfg t dg params html)))) = Some x
+            /\ title x = leaf_title (fst kv).
+Proof. exact template_sections_present. Qed.
+Print Assumptions C14_template_sections_present.
+
+(* the history theorems for constructed cards: headings are last path parts; the constructor adds no metric *)
+Theorem C14_constructed_headings : forall cfg t dg params html ops,
+  no_retitle ops = true -> titled (data (run_card ops (fst (init_card cfg t dg params html)))).
+Proof. exact constructed_titled. Qed.
+Print Assumptions C14_constructed_headings.
+
+Theorem C14_constructed_metrics : forall cfg t dg params html ops,
+  let m := metrics (run_card ops (fst (init_card cfg t dg params html))) in
+  keys m = first_seen (map fst (metric_updates ops))
+  /\ NoDup (keys m)
+  /\ (forall n, dget n m = latest n (metric_updates ops)).
+Proof. exact constructed_metrics. Qed.
+Print Assumptions C14_constructed_metrics.
+
+(* ---- (b) this run's code: Card(model) with all defaults ----------------------------------------------------------- *)
+Local Notation cfg := CardSnapshot.cfg.
+
+(* Card.__init__'s defaults are the skops template with model_diagram="auto"; "skops" is a valid name; the three builders'
+   description= defaults are None *)
+Theorem C14_card_defaults :
+  CardSnapshot.default_template = TStr (skops_name cfg) /\ CardSnapshot.default_diagram = DStr auto
+  /\ mem (skops_name cfg) (valid_templates cfg) = true
+  /\ CardSnapshot.hyper_description_default = None /\ CardSnapshot.plot_description_default = None
+  /\ CardSnapshot.metrics_description_default = None.
+Proof. vm_compute. repeat split; reflexivity. Qed.
+Print Assumptions C14_card_defaults.
+
+(* the default sections of add_hyperparams / add_model_plot / add_metrics are sections the skops template lists: on a default
+   card the builders called without `section=` replace a placeholder in place *)
+Theorem C14_default_sections_listed :
+  mem (hyper_section cfg) (map fst (skops_template cfg)) = true
+  /\ mem (plot_section cfg) (map fst (skops_template cfg)) = true
+  /\ mem CardSnapshot.metrics_section (map fst (skops_template cfg)) = true.
+Proof. vm_compute. repeat split; reflexivity. Qed.
+Print Assumptions C14_default_sections_listed.
+
+(* description=None puts NO text in front of the table / diagram, with and without the skops template (read back from the
+   builders' sections on scratch cards; the docstrings' "a standard text is used" does not happen): the model's
+   or_else None [] is what this run's code does *)
+Theorem C14_default_descriptions_empty :
+  forallb (fun e => is_empty (fst (snd e)) && is_empty (snd (snd e))) CardSnapshot.default_description_texts = true
+  /\ map fst CardSnapshot.default_description_texts = [of_ascii "hyper"; of_ascii "plot"; of_ascii "metrics"].
+Proof. vm_compute. split; reflexivity. Qed.
+Print Assumptions C14_default_descriptions_empty.
+
+(* for EVERY configuration that passes the closed check default_paths_ok ("skops" is a valid name, neither default path lies on
+   the other, the template lists no subsection-carrying section at them), every model_diagram and every oracle value:
+   the hyperparameter table (folded, no description, rows = get_params) sits at add_hyperparams' default path, and the
+   diagram, when the constructor puts it at add_model_plot's default path, is a plain unfolded section with the processed HTML *)
+Theorem C14_skops_builder_sections : forall cfg dg params html,
+  default_paths_ok cfg = true ->
+  let c := fst (init_card cfg (TStr (skops_name cfg)) dg params html) in
+  let table := Sec (leaf_title (hyper_section cfg)) [] true true (KTable (hyperparam_table params)) [] in
+  (diagram_ops cfg true dg html = [OAddModelPlot (plot_section cfg) None html] ->
+     lookup (split_names (hyper_section cfg)) (data c) = Some table
+     /\ lookup (split_names (plot_section cfg)) (data c)
+        = Some (Sec (leaf_title (plot_section cfg)) (model_plot_content None html) true false KText []))
+  /\ (diagram_ops cfg true dg html = [] ->
+      lookup (split_names (hyper_section cfg)) (data c) = Some table
+      /\ lookup (split_names (plot_section cfg)) (data c)
+         = lookup (split_names (plot_section cfg)) (add_texts false (skops_template cfg) [])).
+Proof. exact skops_default_sections. Qed.
+Print Assumptions C14_skops_builder_sections.
+
+Theorem C14_default_paths_ok : default_paths_ok cfg = true.
+Proof. vm_compute. reflexivity. Qed.
+Print Assumptions C14_default_paths_ok.
+
+(* the outline of Card(model), for EVERY get_params / estimator_html_repr value: the sections are exactly the listed ones, in
+   the listed order (= document order), each headed by its last path part; the hyperparameter table (folded, no description)
+   and the diagram (plain, not folded) sit at their default paths; no metrics *)
+Theorem C14_default_card : forall params html,
+  let r := init_card cfg CardSnapshot.default_template CardSnapshot.default_diagram params html in
+  snd r = Done
+  /\ outline (data (fst r)) = listed (skops_template cfg)
+  /\ lookup (split_names (hyper_section cfg)) (data (fst r))
+     = Some (Sec (leaf_title (hyper_section cfg)) [] true true (KTable (hyperparam_table params)) [])
+  /\ lookup (split_names (plot_section cfg)) (data (fst r))
+     = Some (Sec (leaf_title (plot_section cfg)) (model_plot_content None html) true false KText [])
+  /\ metrics (fst r) = [].
+Proof.
+  intros params html. split; [vm_compute; reflexivity|]. split; [vm_compute; reflexivity|].
+  split; [|split; [|apply init_metrics_empty]];
+    apply (proj1 (skops_default_sections cfg CardSnapshot.default_diagram params html C14_default_paths_ok) eq_refl).
+Qed.
+Print Assumptions C14_default_card.
+
+(* ... and every other listed section is the template's text: visible, not folded, the listed content *)
+Theorem C14_default_card_texts : forall params html kv,
+  In kv (skops_template cfg) -> fst kv <> hyper_section cfg -> fst kv <> plot_section cfg ->
+  exists sd, lookup (split_names (fst kv))
+                    (data (fst (init_card cfg CardSnapshot.default_template CardSnapshot.default_diagram params html)))
+             = Some (Sec (leaf_title (fst kv)) (snd kv) true false KText sd).
+Proof.
+  intros params html kv Hin H1 H2. apply text_kept_spec.
+  apply (text_kept_all _ (skops_template cfg) [hyper_section cfg; plot_section cfg]); [vm_compute; reflexivity | exact Hin |].
+  intros [E|[E|[]]]; congruence.
+Qed.
+Print Assumptions C14_default_card_texts.
+
+(* model_diagram=False on the skops template: same outline, the diagram's section keeps the template's text *)
+Theorem C14_default_card_without_diagram : forall params html,
+  let r := init_card cfg CardSnapshot.default_template (DBool false) params html in
+  snd r = Done
+  /\ outline (data (fst r)) = listed (skops_template cfg)
+  /\ option_map content (lookup (split_names (plot_section cfg)) (data (fst r)))
+     = dget (plot_section cfg) (skops_template cfg)
+  /\ dget (plot_section cfg) (skops_template cfg) <> None.
+Proof. intros params html. vm_compute. repeat split; try reflexivity; discriminate. Qed.
+Print Assumptions C14_default_card_without_diagram.
+
+(* non-vacuity over this run's data: a custom template with nested / escaped / blank-padded keys and the diagram in a named
+   section; True without a template creates the default path; the two exceptions *)
+Theorem C14_init_examples :
+  (let r := init_card cfg (TMap [(of_ascii "A/B", of_ascii "b"); (of_ascii "x\/y", of_ascii "z"); (of_ascii " A ", of_ascii "a")])
+                      (DStr (of_ascii "A/Plot")) [] (of_ascii "<p>") in
+   snd r = Done
+   /\ outline (data (fst r)) = [([of_ascii "A"], of_ascii "A"); ([of_ascii "A"; of_ascii "B"], of_ascii "B");
+                                ([of_ascii "A"; of_ascii "Plot"], of_ascii "Plot"); ([of_ascii "x/y"], of_ascii "x/y")]
+   /\ option_map content (lookup [of_ascii "A"] (data (fst r))) = Some (of_ascii "a"))
+  /\ (let r := init_card cfg TNone (DBool true) [] (of_ascii "<p>") in
+      snd r = Done /\ map fst (outline (data (fst r))) = [firstn 1 (split_names (plot_section cfg)); firstn 2 (split_names (plot_section cfg));
+                                                          split_names (plot_section cfg)])
+  /\ init_card cfg TNone (DStr auto) [] (of_ascii "<p>") = (empty_card, Done)
+  /\ init_card cfg (TStr (of_ascii "nosuch")) (DBool true) [] [] = (empty_card, Failed EValue)
+  /\ init_card cfg (TMap [(of_ascii "A", of_ascii "a"); (of_ascii "folded", of_ascii "x")]) (DBool false) [] [] = (empty_card, Failed EType)
+  /\ init_card cfg (TMap [(of_ascii "self", of_ascii "x")]) (DBool false) [] [] = (empty_card, Failed EType).
+Proof. vm_compute. repeat split; reflexivity. Qed.
+Print Assumptions C14_init_examples.
